@@ -310,19 +310,19 @@ Definition end_k (c : cfg) (k : comps) : comps :=
 
 Lemma exec_end_mk c k : exec_end A c (mk c k) = mk c (end_k c k).
 Proof.
-  destruct c as [[] [] [] sc]; destruct k as [dlog bl dout bo derr pp ps blk ov]; destruct blk; reflexivity.
+  destruct c as [[] [] [] sc]; destruct k as [dlog bl dout bo derr pp ps blk ov]; destruct blk;
+    cbv -[BUFSZ PAGE]; reflexivity.
 Qed.
 
 Lemma start_mk c : step A c (step A c (init (A := A)) (ASetup A 0)) (AStart A) = mk c k0.
-Proof. destruct c as [[] [] [] sc]; reflexivity. Qed.
+Proof. destruct c as [[] [] [] sc]; cbv -[BUFSZ PAGE]; reflexivity. Qed.
 
 Lemma run_single c cs :
   run A c [cs] [] = step A c (step A c (mk c (fold_chunks c k0 cs)) (AEnd A)) (ATeardown A).
 Proof.
   unfold run, program, body, insert_at. cbn [hd tl firstn skipn app].
   unfold exec. cbn [fold_left]. rewrite start_mk.
-  rewrite fold_left_app. fold (exec A c (mk c k0) (map (fun ch => AChunk A (fst ch) (snd ch)) cs)).
-  rewrite exec_chunks. reflexivity.
+  rewrite !fold_left_app. cbn [fold_left]. f_equal. f_equal. exact (exec_chunks c cs k0).
 Qed.
 
 (* teardown of a running single attempt: what is buffered reaches the files *)
@@ -333,8 +333,14 @@ Lemma teardown_obs c k : k_blocked k = false ->
   (c_stderr c = true -> dsk A s P_STDERR = k_derr k) /\ outvar A s = k_outvar k.
 Proof.
   intros Hb. destruct k as [dlog bl dout bo derr pp ps blk ov]. cbn [k_blocked] in Hb. subst blk.
-  destruct c as [[] [] [] sc]; destruct bl, bo; cbv -[app];
-    rewrite ?app_nil_r; repeat split; intros; try reflexivity; try discriminate.
+  destruct c as [[] [] [] sc].
+  all: destruct bl as [|b0 bl].
+  all: destruct bo as [|o0 bo].
+  all: cbn [k_dlog k_bl k_dout k_bo k_derr k_outvar]; rewrite ?app_nil_r.
+  all: cbv -[BUFSZ PAGE].
+  all: repeat split.
+  all: try reflexivity.
+  all: intros H; try reflexivity; discriminate H.
 Qed.
 
 (* ---------------------------------------------------------------------------------------------------- *)
@@ -381,21 +387,20 @@ Proof.
         specialize (Hfit eq_refl). rewrite app_length in Hfit.
         destruct (pipe_put_fits (k_ps k) (length p) Hp2 ltac:(lia)) as (ps & Hput & Hpi & Hps).
         rewrite Hput. constructor; cbn [k_blocked k_dlog k_bl k_dout k_bo k_derr k_pipe k_ps k_outvar]; try assumption; try reflexivity.
-        -- rewrite Hl1, <- Hlog. now rewrite app_assoc.
-        -- intros Hs. rewrite (HE Hs). now apply Herr.
-        -- intros _. repeat split; [now rewrite Hp1 | exact Hpi | rewrite Hps, Hp3, app_length; lia].
+        all: try (rewrite Hl1, <- Hlog; now rewrite app_assoc).
+        all: try (intros Hs; rewrite (HE Hs); now apply Herr).
+        intros _. split; [now rewrite Hp1 | split; [exact Hpi | rewrite Hps, Hp3, app_length; lia]].
       * constructor; cbn [k_blocked k_dlog k_bl k_dout k_bo k_derr k_pipe k_ps k_outvar]; try assumption; try reflexivity.
-        -- rewrite Hl1, <- Hlog. now rewrite app_assoc.
-        -- intros Hs. rewrite (HE Hs). now apply Herr.
-        -- discriminate.
+        all: try (rewrite Hl1, <- Hlog; now rewrite app_assoc).
+        all: try (intros Hs; rewrite (HE Hs); now apply Herr).
+        all: try (intros Hs; congruence).
     + (* a lone bufio.Writer: ReadFrom *)
       unfold multi in Em. apply orb_false_iff in Em as [Eo Es].
       pose proof (rfp_spec (k_dlog k) (k_bl k) p Hlb) as [Hl1 Hl2].
       constructor; cbn [k_blocked k_dlog k_bl k_dout k_bo k_derr k_pipe k_ps k_outvar]; try assumption; try reflexivity.
-      * rewrite Hl1, <- Hlog. now rewrite app_assoc.
-      * intros Hs. rewrite Hs in Es. discriminate.
-      * intros Hs. rewrite (HE Hs). now apply Herr.
-      * intros Ho. rewrite Ho in Eo. discriminate.
+      all: try (rewrite Hl1, <- Hlog; now rewrite app_assoc).
+      all: try (intros Hs; rewrite (HE Hs); now apply Herr).
+      all: try (intros Hs; congruence).
   - (* stderr with its own file *)
     destruct x; [discriminate|]. cbn in Etl. apply negb_false_iff in Etl.
     rewrite app_nil_r. cbn [epart].
@@ -533,7 +538,7 @@ Qed.
 
 (* ... and the half-pipe bound of the partial theorem is nearly sharp: 17 chunks of 2049 bytes (34833 bytes) block *)
 Lemma complete_refuted_pipe_chunking : exists (c : cfg) (cs : list (chunk nat)),
-  c_output c = true /\ length (log_of nat c cs) = 34833 /\ blocked nat (run nat c [cs] []) = true.
+  c_output c = true /\ N.of_nat (length (log_of nat c cs)) = 34833%N /\ blocked nat (run nat c [cs] []) = true.
 Proof.
   exists (mkc false false true false), (repeat (Out, repeat 0 2049) 17).
   split; [reflexivity|]. split; vm_compute; reflexivity.
@@ -554,4 +559,6 @@ Example complete_single_example :
   (c_output c = false \/ length (log_of nat c cs) <= HALFPIPE) /\
   dsk nat (run nat c [cs] []) (logpath nat (run nat c [cs] [])) = repeat 7 5000 ++ repeat 8 3000 /\
   dsk nat (run nat c [cs] []) P_STDERR = [1; 2; 3].
-Proof. vm_compute. repeat split; try reflexivity. right. repeat constructor. Qed.
+Proof.
+  cbv zeta. split; [right; apply Nat.leb_le; vm_compute; reflexivity|]. split; vm_compute; reflexivity.
+Qed.
